@@ -60,13 +60,16 @@ CHECKS.update({
               "with the embedded file on every run); sszdiff. Modelled, not verified: fastssz's Hasher/merkleizeImpl (modelled by the spec's merkleize), "
               "crypto/sha256 (Lean re-implementation validated per run), strconv/strings. The spec constants are those written in Props/C17.lean.")),
     'C03': dict(
-        technique='Lean 4 theorems about the expansion model (list homomorphism, exact explicit payloads, per-position baked messages, last-wins agreement of the consumers) + differential sszdiff/fsmdiff',
+        technique='Lean 4 theorems about the expansion model (list homomorphism, exact explicit payloads, per-position baked messages, last-wins agreement of the consumers) + differential sszdiff/fsmdiff + end-to-end monitors on real ceremonies (algdiff)',
         text=("Proof. lean/Dc4bcVerif/Props/C03.lean: explicit_payload_exact, expansion_append (order preserved, same function for every participant), "
               "expansion_fails_atomically, range_messages (one message per position, carrying the index found there; its payload is C17's function), "
               "consumers_agree (signer/FSM map and reconstruction map pick the same expanded message per id). Tie: sszdiff compares TasksToMessages / "
               "ReconstructBakedMessage with the model on generated mixed batches; fsmdiff + Go monitors check on every accepted proposal that the "
               "SrcPayload kept in the round decodes to exactly the proposed tasks (nil vs empty payload included) and expands identically. "
-              "The end-to-end path through the airgapped signer and the signature store is exercised by the C01 ceremony driver when present."),
+              "End to end (algdiff, part of this check): in real ceremonies every partial signature a machine puts on the board is checked with tbls.Verify over the "
+              "payload the PROPOSAL gives for that identifier (signed_eq_proposed), and every stored/broadcast final signature carries exactly that payload and "
+              "verifies over it with prysm (stored_payload, foreign_message); batches include one only a board writer can make: an identifier used by two tasks "
+              "with different payloads, a range in between, and an explicit task named like one of the range's validators (last task wins everywhere: consumers_agree)."),
         ref='7 C03',
         note=("Trusted: as C17 plus fsmdiff. Modelled, not verified: encoding/json of []SigningTask; the three consumers are modelled as last-wins maps "
               "over the expanded list (read off bls.go, node_service.go, signature.go), tied only through the differential runs.")),
